@@ -186,6 +186,9 @@ def random_history(rnd, fam, length, nslots=NS):
                 sz = (rnd.choice([0, 1, 2, 3, 5]),)
             else:
                 sz = tuple(rnd.choice([1, 2, 3]) for _ in range(N))
+            if rnd.random() < 0.04:
+                # now and then a field with a few hundred cells (block-wise readers / bulk copies must not depend on size)
+                sz = (rnd.choice([90, 200, 345]),) if fam == 0 else tuple(rnd.choice([5, 6, 7, 9]) for _ in range(N))
             cands["ctor"].append(("ctor", a, rnd.randrange(2), sz))
             cands["dtor"].append(("dtor", a))
             n = sim.s[a][1] if sim.s[a] else 3
